@@ -55,6 +55,16 @@ void fpBFH(const json &in, json &out) {
           const Spline<F, ob> b = mkSpline<F, ob>(jb, g);
           const bspline::integration::BilinearForm f{E1::template make<F>(fs), E2::template make<F>(fs)};
           acc.cmp(f(a, b), ratQ(in.at("E")), ratQ(in.at("S")), "bf");
+          if constexpr (E1::exactable && E2::exactable) try {  // second pass, full-mantissa coefficients
+            const Grid<Rat> gr = mkGrid<Rat>(ja.at("g"));
+            const Factors<Rat> fsr(in, gr);
+            const auto ap = perturbedSpline(a, caseKey(in)), bp = perturbedSpline(b, caseKey(in) + 13);
+            const auto ar = exactTwin(ap, gr);
+            const auto br = exactTwin(bp, gr);
+            const bspline::integration::BilinearForm fr{E1::template make<Rat>(fsr), E2::template make<Rat>(fsr)};
+            acc.cmp(f(ap, bp), ratToQ(fr(ar, br)), 2 * ratQ(in.at("S")), "pbf");
+          } catch (const RatError &) {
+          }
         }
       });
     });
